@@ -49,7 +49,7 @@ def desc_rust(d):
 
 def run(ctx, log):
     # the same small programs at every size around the widths the implementation encodes things in (closed-form results)
-    progcheck.run_scale(ctx, log, ['constants', 'alias'])
+    progcheck.run_scale(ctx, log, ['constants', 'alias', 'text', 'csc'])
     rng = ctx.rng
     cases = []   # (rust line, builder(obs) -> coq term or None, python-side oracle(obs) -> error or None, label)
     ints = int_lattice() + [rand_int(rng) for _ in range(300 if ctx.quick else 20000)]
@@ -206,10 +206,21 @@ def run(ctx, log):
     for b in list(FLOAT_SPECIALS) + [rand_float_bits(rng) for _ in range(40 if ctx.quick else 1500)]:
         x = struct.unpack(">d", bytes.fromhex(b))[0]
         r = repr(x)
-        if x != x or "inf" in r or "e" in r or r.startswith("-") or len(r) > 17:
+        if x != x or "inf" in r or "e" in r or r.startswith("-"):
             continue
         eq = "b1,b0,b1,b0"
         edits.append(("stel a = [%s * 1.0]; stel b = -(-(a[0])); [b == %s, b != %s, %s == b, %s != b, b]" % (r, r, r, r, r), "OK #0=A[%s,#1=F%s]" % (eq, b)))
+    # float literals with 1 to 25 significant digits: the literal denotes the nearest binary64 (Python's float() is the reference)
+    for _ in range(150 if ctx.quick else 6000):
+        nd = rng.randint(1, 25)
+        digits = "".join(rng.choice("0123456789") for _ in range(nd))
+        ip = rng.choice(["0", "1", "7", "12", "123456", "9007199254740993", "4503599627370497"])
+        lit = ip + "." + digits
+        bits = "%016x" % struct.unpack(">Q", struct.pack(">d", float(lit)))[0]
+        edits.append(("[%s]" % lit, "OK #0=A[#1=F%s]" % bits))
+    for lit in ["0.9046212365765801", "0.30000000000000004", "1.0000000000000002", "0.1", "5.55", "3.14", "9007199254740993.0", "0.000000000000000000000000000001", "123456789012345678.0", "1.7976931348623157"]:
+        bits = "%016x" % struct.unpack(">Q", struct.pack(">d", float(lit)))[0]
+        edits.append(("[%s, %s == %s]" % (lit, lit, lit), "OK #0=A[#1=F%s,b1]" % bits))
     for z in [0, 1, 7, 2 ** 60 - 1, 2 ** 59, 65536 * 3 + 1] + [rand_int(rng) for _ in range(20)]:
         if z >= 0:
             edits.append(("stel a = [%d]; stel b = a[0] + 0; [b == %d, b != %d, b]" % (z, z, z), "OK #0=A[b1,b0,i%d]" % z))
